@@ -663,6 +663,8 @@ impl Interp {
                     return out;
                 };
                 out.target = Some(n);
+                // a rejected substate write has already taken the node out of the frame: stop on error
+                out.abort_on_err = true;
                 let k = enc_key(key);
                 out.result = (|| {
                     let h = api.actor_open_key_value_entry(ACTOR_STATE_SELF, 0, &k, LockFlags::MUTABLE)?;
@@ -681,6 +683,7 @@ impl Interp {
                 };
                 out.target = Some(n);
                 out.aux = Some(st);
+                out.abort_on_err = true;
                 let k = enc_key(key);
                 out.result = (|| {
                     let h = api.key_value_store_open_entry(&st, &k, LockFlags::MUTABLE)?;
@@ -840,6 +843,13 @@ impl Interp {
         if !self.held.is_empty() {
             step(self, api, Op::ReleaseKv)?;
         }
+        // keys unique per transaction (entries of earlier transactions must not be overwritten)
+        let uniq: Vec<u8> = api.generate_ruid().map(|r| r[..10].to_vec()).unwrap_or_default();
+        let key_for = |frame: u32, s: u8| -> Vec<u8> {
+            let mut k = vec![0xc1, frame as u8, s];
+            k.extend_from_slice(&uniq);
+            k
+        };
         let mut rtn: Vec<Own> = vec![];
         let returned = self.returned.clone();
         let slots: Vec<(u8, Slot)> = self.slots.iter().map(|(k, v)| (*k, v.clone())).collect();
@@ -863,7 +873,7 @@ impl Interp {
                 Some(bp) if Some(&bp) == self.actor_bp.as_ref() && api.get_outer_object(&n).is_err() => {
                     if !step(self, api, Op::Drop { t: Tgt::Slot(s) })? {
                         if self.is_method {
-                            if !step(self, api, Op::StoreInKv { slot: s, key: vec![0xc1, self.frame as u8, s] })? {
+                            if !step(self, api, Op::StoreInKv { slot: s, key: key_for(self.frame, s) })? {
                                 rtn.push(Own(n));
                             }
                         } else {
@@ -877,7 +887,7 @@ impl Interp {
                 }
                 _ => {
                     if self.is_method {
-                        if !step(self, api, Op::StoreInKv { slot: s, key: vec![0xc1, self.frame as u8, s] })? {
+                        if !step(self, api, Op::StoreInKv { slot: s, key: key_for(self.frame, s) })? {
                             rtn.push(Own(n));
                         }
                     } else {
